@@ -46,6 +46,7 @@ PROPS = {
         crash_is_violation=True,
         assumptions=COMMON_ASSUME + ["no generated handler blocks, so a 20 s hang reproduced twice is a lost unlock/Done, not load"],
         tests=[
+            dict(name="TestPanicHandlerReenters", quick=1500, thorough=100000, shards_thorough=8, shrinktime="5s"),
             dict(name="TestPanics", quick=6000, thorough=300000, shards_thorough=16),
         ],
     ),
